@@ -243,6 +243,12 @@ class ScriptedRunner(SimulationRunner):
         return res
 
     def _keep_going(self, current_params, current_sim_results, current_rep):
+        val = self._keep_going_rule(current_params, current_sim_results, current_rep)
+        form = self.w.script.get("kg_form")
+        # a predicate computed with numpy returns numpy.bool_ (e.g. `errors.get_result() < max_errors`), some return 0/1
+        return np.bool_(val) if form == "np" else (int(val) if form == "int" else val)
+
+    def _keep_going_rule(self, current_params, current_sim_results, current_rep):
         w = self.w
         w.seams.seam("cb:keep_going")
         rule = w.script.get("stop", {"kind": "always"})
